@@ -89,7 +89,8 @@ def case_strategy(draw):
              mob.tolist()]
     return {"fixed": fixed.tolist(), "built_with": mob.tolist(), "restr": restr, "rkind": kind,
             "layout": layout, "evals": evals, "seed": draw(gen.SEEDS),
-            "as_tuples": draw(st.booleans()), "reuse_restr": draw(st.integers(0, 3)) == 0, "work_array": draw(st.integers(0, 2)) == 0,
+            "as_tuples": draw(st.booleans()),
+            "rcont": draw(st.sampled_from(["list", "list", "ndarray", "ndarray", "int32", "tuple"])), "reuse_restr": draw(st.integers(0, 3)) == 0, "work_array": draw(st.integers(0, 2)) == 0,
             "mem": [draw(st.sampled_from(gen.ARRAY_LAYOUTS)) for _ in range(5)]}
 
 
@@ -122,16 +123,35 @@ def check(case):
     built = gen.as_layout(case["built_with"], mem[1])
     restr = [tuple(r) for r in case["restr"]] if case["as_tuples"] else [list(r) for r in case["restr"]]
     rlist = [tuple(r) for r in case["restr"]]
+    rcont = case.get("rcont", "list")
+
+    def boxed(rs):
+        # the documented type of the argument is "numpy.ndarray((N, 2)) or array convertible"
+        if not rs:
+            return None
+        if rcont == "ndarray":
+            return np.array(rs)
+        if rcont == "int32":
+            return np.array(rs, dtype=np.int32)
+        if rcont == "tuple":
+            return tuple(tuple(r) for r in rs)
+        return rs
     fixed_snapshot = fixed.copy()
     if restr and case.get("reuse_restr"):
         # the caller keeps ONE restraint list and edits it in place between two calculators
         real = list(restr)
         del restr[:]
-        restr.extend([real[0]] * 2 if case["seed"] % 2 else real[: max(1, len(real) // 2)])
-        lib("construct-prior", gaddlemaps.Chi2Calculator, fixed, built, restr)
+        how = case["seed"] % 3
+        if how == 2 and len(real) >= 3:
+            # ... only its middle rows differ (same first and last row, same length)
+            nm = len(built)
+            restr.extend([real[0]] + [type(real[0])((r[0], (r[1] + 1) % nm)) for r in real[1:-1]] + [real[-1]])
+        else:
+            restr.extend([real[0]] * 2 if how else real[: max(1, len(real) // 2)])
+        lib("construct-prior", gaddlemaps.Chi2Calculator, fixed, built, boxed(restr))
         del restr[:]
         restr.extend(real)
-    calc = lib("construct", gaddlemaps.Chi2Calculator, fixed, built, restr if restr else None)
+    calc = lib("construct", gaddlemaps.Chi2Calculator, fixed, built, boxed(restr))
     ks = []
     any_tie = False
     work = None
@@ -160,7 +180,7 @@ def check(case):
     if not tie0 and case["layout"] != "far-tight":     # (a rigid motion of far-tight sets is itself ill-conditioned)
         R = gen.random_rotation(rng)
         t = rng.uniform(-10, 10, 3)
-        calc2 = lib("construct", gaddlemaps.Chi2Calculator, fixed @ R.T + t, built @ R.T + t, restr if restr else None)
+        calc2 = lib("construct", gaddlemaps.Chi2Calculator, fixed @ R.T + t, built @ R.T + t, boxed(restr))
         moved = float(lib("evaluate", calc2, mob @ R.T + t))
         if not abs(moved - base) <= 1e-9 * max(abs(base), 1e-9):
             raise PropertyViolation("rigid-invariance", "value %r becomes %r after a common rigid motion" % (base, moved))
@@ -169,13 +189,13 @@ def check(case):
         inv_f = np.argsort(pf)
         inv_m = np.argsort(pm)
         restr_p = [(int(inv_f[i]), int(inv_m[j])) for i, j in rlist]
-        calc3 = lib("construct", gaddlemaps.Chi2Calculator, fixed[pf], built[pm], restr_p if restr_p else None)
+        calc3 = lib("construct", gaddlemaps.Chi2Calculator, fixed[pf], built[pm], boxed(restr_p))
         perm = float(lib("evaluate", calc3, mob[pm]))
         if not abs(perm - base) <= 1e-9 * max(abs(base), 1e-9):
             raise PropertyViolation("relabel-invariance", "value %r becomes %r after consistent relabelling" % (base, perm))
     path = "path:none" if not rlist else ("path:all" if len(set(i for i, _ in rlist)) == len(fixed) else "path:some")
     classes = ["restr:" + case["rkind"], path, "layout:" + case["layout"],
-               "k>=1" if max(ks) >= 1 else "k=0", "mem:" + ("C" if set(mem) <= {"C"} else "mixed")]
+               "k>=1" if max(ks) >= 1 else "k=0", "mem:" + ("C" if set(mem) <= {"C"} else "mixed"), "restraints-as:" + rcont]
     if any_tie:
         classes.append("tie")
     return {"nontrivial": max(ks[:2]) >= 1, "classes": classes,
